@@ -5,6 +5,7 @@
 From FMP Require Import Base.Bytes Base.Lts Model.Events Model.Skeleton Model.Props Model.Writer Model.Receiver
      Model.Lifecycle Proofs.WriterProofs Proofs.ReceiverProofs Proofs.LifecycleProofs Proofs.CloseProofs
      Proofs.SkeletonProofs.
+From FMP Require Import Model.Paths Proofs.PathsC10.
 From FMP Require Import Proofs.WriterProgress Proofs.WriterCancel Proofs.ReceiverQuiesce.
 Open Scope Z_scope.
 
@@ -78,6 +79,10 @@ Theorem C10_serving_side_quiesces : forall ls st,
                     forall x, In x (handlers st') -> hd_pc x = HRun -> hd_ctx x = true.
 Proof. exact recv_can_quiesce_after_stop_cancelled. Qed.
 
+(* on every path through the writer loop as it is in the source now the goroutine returns only through the arm that Close enables, never after a Write: a failed write does not take the receiver of the hand-off channel away *)
+Theorem C10_source_writer_survives_write_errors : writer_loop_exits_only_when_done = true.
+Proof. exact paths_writer_exits_only_when_done. Qed.
+
 Print Assumptions C10_blocked_callers_released.
 Print Assumptions C10_ctx_releases.
 Print Assumptions C10_reply_needs_its_context.
@@ -87,3 +92,4 @@ Print Assumptions C10_close_idempotent.
 Print Assumptions C10_generated_ok.
 Print Assumptions C10_stopped_sender_returns.
 Print Assumptions C10_serving_side_quiesces.
+Print Assumptions C10_source_writer_survives_write_errors.
